@@ -68,6 +68,9 @@ Deliver(W, tg, lvl, mod, spec, dupe, dupo) ==
 (* Predicates comparing an outcome `o` (modelled or observed) with Deliver  *)
 (***************************************************************************)
 Configured(x) == x >= 0
+\* the default channel may also be one of the standard streams (Logger::log_to_stdout / log_to_stderr);
+\* then there is no duplication, and nothing may reach the other stream
+StdPrimaries == {"stdout", "stderr"}
 \* each registered writer named in the list: exactly once (if its ceiling admits the level)
 NamedExactlyOnce(W, tg, lvl, o) ==
     \A n \in Names(W) : (Handed(tg, n) = 1 /\ Passes(WriterOf(W, n), lvl)) => o.got[n] = 1
@@ -76,19 +79,24 @@ NotNamedNothing(W, tg, o) == \A n \in Names(W) : Handed(tg, n) = 0 => o.got[n] =
 \* no writer emits a record above its configured maximum level
 CeilingRespected(W, lvl, o) ==
     \A n \in Names(W) : (~Passes(WriterOf(W, n), lvl)) => o.got[n] = 0
-DefaultIff(D, o) == /\ Configured(o.file) => o.file = D.def
-                    /\ Configured(o.pw)   => o.pw = D.def
-DupErrIff(D, o)  == Configured(o.err) => o.err = D.err
-DupOutIff(D, o)  == Configured(o.out) => o.out = D.out
+DefaultIff(prim, D, o) == /\ Configured(o.file) => o.file = D.def
+                          /\ Configured(o.pw)   => o.pw = D.def
+                          /\ prim = "stdout" => o.out = D.def
+                          /\ prim = "stderr" => o.err = D.def
+\* frames expected on stderr / stdout for a default channel `prim`
+ExpErr(prim, D) == IF prim = "stderr" THEN D.def ELSE IF prim = "stdout" THEN 0 ELSE D.err
+ExpOut(prim, D) == IF prim = "stdout" THEN D.def ELSE IF prim = "stderr" THEN 0 ELSE D.out
+DupErrIff(prim, D, o)  == (Configured(o.err) /\ prim # "stderr") => o.err = ExpErr(prim, D)
+DupOutIff(prim, D, o)  == (Configured(o.out) /\ prim # "stdout") => o.out = ExpOut(prim, D)
 \* unknown names are reported ...
 UnknownReported(D, o)   == D.unknown \subseteq ToSet(o.errs)
 \* ... and nothing else is (no report names a registered writer or _Default)
 NoSpuriousReport(W, o)  == ToSet(o.errs) \cap (Names(W) \cup {DEFAULT}) = {}
 
-C13Holds(W, tg, lvl, mod, spec, dupe, dupo, o) ==
+C13Holds(W, prim, tg, lvl, mod, spec, dupe, dupo, o) ==
     LET D == Deliver(W, tg, lvl, mod, spec, dupe, dupo) IN
     /\ NamedExactlyOnce(W, tg, lvl, o) /\ NotNamedNothing(W, tg, o) /\ CeilingRespected(W, lvl, o)
-    /\ DefaultIff(D, o) /\ DupErrIff(D, o) /\ DupOutIff(D, o)
+    /\ DefaultIff(prim, D, o) /\ DupErrIff(prim, D, o) /\ DupOutIff(prim, D, o)
     /\ UnknownReported(D, o) /\ NoSpuriousReport(W, o)
 
 (***************************************************************************)
